@@ -302,3 +302,191 @@ Proof.
     change (5 <=? 5) with true. cbv iota. fold body.
     unfold len_n. rewrite !app_length, enc_fixed_length. cbn [length]. exact Hlen.
 Qed.
+
+(* ------------------------------------------------------------------ the tables a reader must see, version 5 *)
+
+Definition file5_entry (p : W.prog) (ls ss : W.strtab) (f : (W.lstr * N) * W.finfo) : file_entry :=
+  mk_file (lstr_val5 ls ss (fst (fst f))) (snd (fst f))
+          (if W.p_has_timestamp p then W.fi_timestamp (snd f) else 0)
+          (if W.p_has_size p then W.fi_size (snd f) else 0)
+          (if W.p_has_md5 p then W.fi_md5 (snd f) else repeat x00 16)
+          (if W.p_has_source p then Some (src_val5 ls ss (snd f)) else None).
+
+Lemma dirs_of_raw5 ls ss form : forall ds,
+  flat_map (fun o : option form_val => match o with Some v => [v] | None => [] end)
+           (map (fun vals => dir_of_entry (dir_fmt5 form) vals None) (map (raw_dir5 ls ss) ds))
+  = map (lstr_val5 ls ss) ds.
+Proof. induction ds as [|d ds IH]; [reflexivity|]. cbn [map flat_map]. rewrite IH. reflexivity. Qed.
+
+Lemma file_of_raw5 p ls ss ff sf f : length (W.fi_md5 (snd f)) = 16%nat ->
+  (let fp := file_of_entry (file_fmt5 p ff sf) (raw_file5 p ls ss f) file0 None in
+   mk_file (match snd fp with Some v => v | None => VString [] end)
+           (fe_dir (fst fp)) (fe_time (fst fp)) (fe_size (fst fp)) (fe_md5 (fst fp)) (fe_source (fst fp)))
+  = file5_entry p ls ss f.
+Proof.
+  intros Hm. unfold file_fmt5, raw_file5, file5_entry.
+  assert (E16 : len_n (W.fi_md5 (snd f)) =? 16 = true) by (unfold len_n; rewrite Hm; reflexivity).
+  destruct (W.p_has_timestamp p), (W.p_has_size p), (W.p_has_md5 p), (W.p_has_source p);
+    cbn [app file_of_entry upd_file ef_ct udata_of fst snd fe_path fe_dir fe_time fe_size fe_md5 fe_source file0];
+    repeat (first [ change (LNCT_path =? LNCT_path) with true | change (LNCT_directory_index =? LNCT_path) with false
+                  | change (LNCT_directory_index =? LNCT_directory_index) with true
+                  | change (LNCT_timestamp =? LNCT_path) with false | change (LNCT_timestamp =? LNCT_directory_index) with false
+                  | change (LNCT_timestamp =? LNCT_timestamp) with true ]; cbv iota);
+    cbn; rewrite ?E16; reflexivity.
+Qed.
+
+Lemma files_of_raw5 p ls ss ff sf : forall fs,
+  Forall (fun f => length (W.fi_md5 (snd f)) = 16%nat) fs ->
+  map (fun fp : file_entry * option form_val =>
+         let f := fst fp in
+         mk_file (match snd fp with Some v => v | None => VString [] end)
+                 (fe_dir f) (fe_time f) (fe_size f) (fe_md5 f) (fe_source f))
+      (map (fun vals => file_of_entry (file_fmt5 p ff sf) vals file0 None) (map (raw_file5 p ls ss) fs))
+  = map (file5_entry p ls ss) fs.
+Proof.
+  induction fs as [|f fs IH]; intros F; [reflexivity|]. inversion F as [|x xs Hm F']; subst.
+  cbn [map]. f_equal; [exact (file_of_raw5 p ls ss ff sf f Hm) | exact (IH F')].
+Qed.
+
+(* program_roundtrip, version 5, both formats, both byte orders, address sizes 1/2/4/8: directory and file
+   tables in any of the three string forms (one form per table, offsets into the given string tables),
+   optional timestamp / size / MD5 / LLVM source columns; then any admissible script of row calls. *)
+Theorem program_roundtrip_v5 dbg be e l p0 ops unit_enc ls ss d0 ds f0 fs :
+  W.p_insns p0 = [] -> W.p_prev p0 = W.wrow_initial e l -> W.p_in_seq p0 = false ->
+  W.p_enc p0 = e -> W.p_lenc p0 = l ->
+  W.e_version e = 5 -> 5 <= W.e_version unit_enc ->
+  enc_params_ok e l -> P1.enc_ok l -> W.e_addr_size unit_enc = W.e_addr_size e ->
+  W.p_dirs p0 = d0 :: ds -> W.p_files p0 = f0 :: fs ->
+  Forall (dir5_ok (W.e_fmt64 e) ls ss (dform_of p0)) (W.p_dirs p0) ->
+  Forall (file5_ok p0 ls ss (fform_of p0) (W.source_form (W.p_files p0))) (W.p_files p0) ->
+  len_n (W.p_dirs p0) < two64 -> len_n (W.p_files p0) < two64 ->
+  P2.script_ok e l (W.wrow_initial e l) false ops ->
+  script_enc_ok (hdr_of_asz (W.e_addr_size e)) (W.e_version e) (W.params_of l)
+                (A.init_regs (W.params_of l), 0) ops ->
+  (forall p' prog, P2.apply_rops dbg p0 ops = Ok p' -> W.insns_write dbg be e (W.p_insns p') = Ok prog ->
+     len_n (enc_after_len be (raw5 p' ls ss) prog) < (if W.e_fmt64 e then two64 else 4294967280)) ->
+  exists p' bytes h rs,
+    P2.apply_rops dbg p0 ops = Ok p' /\
+    W.write dbg be p' unit_enc ls ss = Ok (bytes, ls, ss) /\
+    parse_header dbg be (W.e_addr_size e) bytes = Ok h /\
+    rows_model dbg be h = (rs, SEnd) /\
+    map rep rs = map r2s (fst (P2.meaning (W.e_version e) (W.params_of l) (A.init_regs (W.params_of l), 0) ops)) /\
+    Forall (fun r => r_tomb r = false) rs /\
+    h_dirs h = map (lstr_val5 ls ss) (W.p_dirs p0) /\ h_files h = map (file5_entry p0 ls ss) (W.p_files p0) /\
+    hdr_matches e l h.
+Proof.
+  intros Ins Prev Seq Enc Lenc Hv Huv HP Hok Hasz Hd Hf Fd Ff Ld Lf Hscript Henc Hfits.
+  set (hc := mk_header (W.e_fmt64 e) (W.e_version e) (W.e_addr_size e) 0 0 (W.le_min_len l) (W.le_max_ops l)
+               (W.le_default_is_stmt l) (W.le_line_base l) (W.le_line_range l) 13 W.std_opcode_lengths
+               [] [] [] [] []).
+  assert (HMc : hdr_matches e l hc) by (unfold hdr_matches, hc; cbn; repeat split).
+  assert (Hb0 : bounds hc (r2s (A.init_regs (W.params_of l)))).
+  { pose proof (hdr_matches_pwf e l hc HMc HP) as [_ _ _ _ Hs _ _].
+    split; [|cbn; unfold two64z; lia].
+    change (s_address (r2s (A.init_regs (W.params_of l)))) with 0%Z. unfold addr_mask.
+    assert (0 < 2 ^ (8 * Z.of_N (h_addr_size hc)))%Z by (apply Z.pow_pos_nonneg; lia). lia. }
+  destruct (script_wf e l hc HMc HP dbg ops p0 (A.init_regs (W.params_of l)) Lenc Enc Hok ltac:(lia))
+    as (p' & new & Eap & Eins & Wf & Een & Nos & Sp & Run).
+  { rewrite Prev. apply P2.seq_reset. lia. }
+  { exact Hb0. }
+  { rewrite Prev, Seq. exact Hscript. }
+  { rewrite Prev. cbn [W.wrow_initial W.w_address_offset].
+    eapply script_enc_ok_ext; [|exact Henc]. reflexivity. }
+  rewrite Ins in Eins. cbn [app] in Eins. rewrite Prev in Run. cbn [W.wrow_initial W.w_address_offset] in Run.
+  destruct (apply_rops_tables dbg ops p0 p' Eap) as (Td & Tf & Te & Tl).
+  rewrite Enc in Te. rewrite Lenc in Tl.
+  (* the flags are untouched as well: raw5 / file5_ok only read tables, flags, encodings *)
+  assert (Tflags : W.p_has_timestamp p' = W.p_has_timestamp p0 /\ W.p_has_size p' = W.p_has_size p0 /\
+                   W.p_has_md5 p' = W.p_has_md5 p0 /\ W.p_has_source p' = W.p_has_source p0).
+  { clear -Eap. revert p0 p' Eap. induction ops as [|o ops IH]; intros p0 p' H; cbn [P2.apply_rops] in H.
+    - inversion H; subst; repeat split.
+    - apply bind_ok in H as (p1 & H1 & H). destruct (IH p1 p' H) as (B1 & B2 & B3 & B4).
+      assert (A0 : W.p_has_timestamp p1 = W.p_has_timestamp p0 /\ W.p_has_size p1 = W.p_has_size p0 /\
+                   W.p_has_md5 p1 = W.p_has_md5 p0 /\ W.p_has_source p1 = W.p_has_source p0).
+      { destruct o as [a|a|row|off opi]; cbn [P2.apply_rop] in H1.
+        - unfold W.begin_sequence in H1. destruct (W.p_in_seq p0); [discriminate|].
+          destruct a; inversion H1; subst; repeat split.
+        - inversion H1; subst; repeat split.
+        - unfold W.generate_row in H1. apply bind_ok in H1 as (x & _ & H1). destruct x as [c d].
+          apply bind_ok in H1 as (opa & _ & H1). apply bind_ok in H1 as (adv & _ & H1).
+          inversion H1; subst; repeat split.
+        - unfold W.end_sequence in H1. apply bind_ok in H1 as (opa & _ & H1). inversion H1; subst; repeat split. }
+      destruct A0 as (A1 & A2 & A3 & A4). repeat split; congruence. }
+  destruct Tflags as (G1 & G2 & G3 & G4).
+  assert (Eraw : raw5 p' ls ss = raw5 p0 ls ss).
+  { unfold raw5, dform_of, fform_of, file_fmt5, raw_file5.
+    rewrite Td, Tf, Te, Tl, Enc, Lenc, G1, G2, G3, G4. reflexivity. }
+  set (prog := enc_prog be hc (map (tr (W.e_version e)) new)).
+  assert (Hprog : W.insns_write dbg be e (W.p_insns p') = Ok prog)
+    by (rewrite Eins; apply insns_write_enc; [reflexivity|exact Een]).
+  pose proof (Hfits p' prog Eap Hprog) as Hlen.
+  assert (Fd' : Forall (dir5_ok (W.e_fmt64 (W.p_enc p')) ls ss (dform_of p')) (W.p_dirs p')).
+  { unfold dform_of. rewrite Td, Te. exact Fd. }
+  assert (Ff' : Forall (file5_ok p' ls ss (fform_of p') (W.source_form (W.p_files p'))) (W.p_files p')).
+  { unfold fform_of. rewrite Tf. unfold fform_of in Ff. eapply Forall_impl; [|exact Ff].
+    intros f (H1 & H2 & H3 & H4 & H5 & H6 & H7). unfold file5_ok. rewrite Te, G4. rewrite Enc in *.
+    repeat split; assumption. }
+  assert (Hw : W.write dbg be p' unit_enc ls ss = Ok (enc_unit be (raw5 p' ls ss) prog, ls, ss)).
+  { apply (write_v5 dbg be p' unit_enc ls ss prog d0 ds f0 fs); try assumption;
+      rewrite ?Te, ?Td, ?Tf; try assumption. }
+  rewrite Eraw in Hw, Hlen.
+  (* the header *)
+  pose proof (lstr_form_small d0) as Sd. pose proof (lstr_form_small (fst (fst f0))) as Sf.
+  pose proof (source_form_small (W.p_files p0)) as Ss.
+  assert (Edf : dform_of p0 = W.lstr_form d0) by (unfold dform_of; rewrite Hd; reflexivity).
+  assert (Eff : fform_of p0 = W.lstr_form (fst (fst f0))) by (unfold fform_of; rewrite Hf; reflexivity).
+  assert (Hv5 : 5 <= W.e_version e) by lia.
+  assert (Hraw : raw_wf5 be (raw5 p0 ls ss) prog).
+  { pose proof HP as (Hsz & Hmil & Hmops & Hlr & Hlb).
+    destruct (dir_fmts_enc5 (dform_of p0) ltac:(rewrite Edf; exact Sd)) as (_ & D1 & D2 & D3).
+    destruct (file_fmts_enc5 p0 (fform_of p0) (W.source_form (W.p_files p0)) ltac:(rewrite Eff; exact Sf) Ss)
+      as (_ & F1 & F2 & F3).
+    rewrite <- Enc in Fd, Hv5.
+    destruct (dirs_write5 dbg be (W.p_enc p0) ls ss (dform_of p0) (W.p_dirs p0) Hv5 Fd) as [_ Ed2].
+    destruct (files_write5 dbg be p0 ls ss (fform_of p0) (W.source_form (W.p_files p0)) (W.p_files p0) Hv5 Ff) as [_ Ef2].
+    constructor; cbn [raw5 rh_version rh_addr_size rh_min_inst_len rh_max_ops rh_line_range rh_opcode_base rh_line_base
+                      rh_std_lengths rh_dirs rh_files rh_fmt64 rh_dir_fmt rh_file_fmt]; rewrite ?Enc, ?Lenc; try lia;
+      try reflexivity; try assumption.
+    - repeat split; assumption.
+    - repeat split; assumption.
+    - rewrite Enc in Ed2. split; [exact Ed2|]. unfold len_n in *. rewrite map_length. exact Ld.
+    - rewrite Enc in Ef2. split; [exact Ef2|]. unfold len_n in *. rewrite map_length. exact Lf. }
+  pose proof (header_roundtrip_v5_lemma dbg be (W.e_addr_size e) (raw5 p0 ls ss) prog [] Hraw) as Hparse.
+  rewrite app_nil_r in Hparse.
+  set (h := header_of_raw be (W.e_addr_size e) (raw5 p0 ls ss) prog) in *.
+  assert (HM : hdr_matches e l h).
+  { unfold hdr_matches, h, header_of_raw. cbn. rewrite ?Enc, ?Lenc, Hv. repeat split. }
+  assert (Hph : h_program h = prog) by reflexivity.
+  assert (Eprog : prog = enc_prog be h (map (tr (W.e_version e)) new)).
+  { unfold prog. apply enc_prog_ext. pose proof HM as (_ & Ha & _). rewrite Ha. reflexivity. }
+  assert (Easz : h_addr_size hc = h_addr_size h) by (pose proof HM as (_ & Ha & _); rewrite Ha; reflexivity).
+  assert (Wf' : prog_wf_from h (r2s (A.init_regs (W.params_of l))) (map (tr (W.e_version e)) new) = true).
+  { destruct (script_wf e l h HM HP dbg ops p0 (A.init_regs (W.params_of l)) Lenc Enc Hok ltac:(lia))
+      as (p2 & new2 & Eap2 & Eins2 & Wf2 & _).
+    - rewrite Prev. apply P2.seq_reset. lia.
+    - eapply bounds_ext; [exact Easz|exact Hb0].
+    - rewrite Prev, Seq. exact Hscript.
+    - rewrite Prev. cbn [W.wrow_initial W.w_address_offset].
+      eapply script_enc_ok_ext; [|exact Henc]. exact Easz.
+    - rewrite Eap in Eap2. inversion Eap2; subst p2. rewrite Ins in Eins2. cbn [app] in Eins2.
+      rewrite Eins in Eins2. subst new2. exact Wf2. }
+  pose proof (hdr_matches_pwf e l h HM HP) as Pw.
+  assert (Hs0 : s_init h = r2s (A.init_regs (W.params_of l))).
+  { unfold s_init, r2s, A.init_regs. cbn. rewrite ?Lenc. reflexivity. }
+  destruct (rows_refine_spec_lemma dbg be h (map (tr (W.e_version e)) new)) as (rs & R1 & R2 & R3).
+  { unfold prog_wf. rewrite (pwf_params_wf h Pw), Hs0, Wf'. reflexivity. }
+  { rewrite Hph. exact Eprog. }
+  exists p', (enc_unit be (raw5 p0 ls ss) prog), h, rs.
+  split; [exact Eap|]. split; [exact Hw|]. split; [exact Hparse|]. split; [exact R1|].
+  split.
+  { rewrite R2. unfold rows_spec. rewrite srun_rows, Hs0.
+    assert (He0 : A.r_end_sequence (A.init_regs (W.params_of l)) = false) by reflexivity.
+    destruct (srun_iso e l h new _ _ _ HM Nos He0 Run) as [Iso _]. rewrite Iso. reflexivity. }
+  split; [exact R3|].
+  split; [|split; [|exact HM]].
+  - unfold h, header_of_raw. cbn [h_dirs]. unfold dirs_of_raw. cbn [raw5 rh_version rh_dirs rh_dir_fmt].
+    rewrite Enc, Hv. change (5 <=? 4) with false. cbv iota. apply dirs_of_raw5.
+  - unfold h, header_of_raw. cbn [h_files]. unfold files_of_raw. cbn [raw5 rh_version rh_files rh_file_fmt].
+    rewrite Enc, Hv. change (5 <=? 4) with false. cbv iota. apply files_of_raw5.
+    clear -Ff. induction Ff as [|f fl (_ & _ & _ & _ & _ & H6 & _) F IH]; constructor; assumption.
+Qed.
